@@ -3,6 +3,9 @@ import socket, threading, time, traceback
 from . import rawhttp
 
 
+RAW_CAP = 1 << 18
+
+
 class Req:
     __slots__ = ("conn_id", "seq", "t_recv", "start", "method", "target", "version", "headers", "body", "framing", "chunks", "raw_head", "host")
 
@@ -52,6 +55,7 @@ class MockHost:
         self.handler = handler or (lambda req: {"status": 200, "body": b"ok"})
         self.requests = []
         self.conn_bytes = {}   # conn_id -> total bytes received
+        self.conn_raw = {}     # conn_id -> first RAW_CAP bytes received, verbatim
         self.conn_count = 0
         self.lock = threading.Lock()
         self.sock = socket.socket(socket.AF_INET, socket.SOCK_STREAM)
@@ -73,6 +77,7 @@ class MockHost:
                 self.conn_count += 1
                 cid = self.conn_count
                 self.conn_bytes[cid] = 0
+                self.conn_raw[cid] = bytearray()
             threading.Thread(target=self._serve, args=(c, cid), daemon=True).start()
 
     def _serve(self, c, cid):
@@ -89,6 +94,8 @@ class MockHost:
                 if d:
                     with self.lock:
                         self.conn_bytes[cid] += len(d)
+                        if len(self.conn_raw[cid]) < RAW_CAP:
+                            self.conn_raw[cid] += d[:RAW_CAP - len(self.conn_raw[cid])]
                 return d
         cs = Counting(c)
         try:
@@ -147,6 +154,10 @@ class MockHost:
     def total_bytes(self):
         with self.lock:
             return sum(self.conn_bytes.values())
+
+    def raw_contains(self, token):
+        with self.lock:
+            return any(token in bytes(v) for v in self.conn_raw.values())
 
     def snapshot(self):
         with self.lock:
